@@ -83,8 +83,10 @@ CLAIMS = {
          "Arguments), and nested chains to depth 14/22 whose log length was 2^depth before the fix."),
  "C19": ("Theorem (induction over expressions, for every context): if evaluation fails with 'undeclared reference n' then n is among the "
          "variables or functions reported by the transcription of Program::references, unless n is a macro-internal '@' name; built-ins and host "
-         "functions never fabricate that error; '@' names are never reported; the report has no context argument. The converse clause (no such "
-         "failure when everything reported is defined) is not proved (partial) but evaluated on the implementation. Tied to references.rs and "
+         "functions never fabricate that error; '@' names are never reported; the report has no context argument. Conversely (C19_complete, by an "
+         "invariant over comprehension scopes): when the context defines every reported variable and function, no evaluation fails with an undeclared "
+         "reference, for every expression without free '@' identifiers - the six macro expansions are proved to bind the accumulator they introduce and "
+         "the stream checks closedness on every compiled program. Tied to references.rs and "
          "objects.rs by generated programs with random names in every syntactic position: reference sets and execution outcomes against random "
          "contexts are compared with the model, and all clauses of the property are evaluated on the implementation's own answers."),
  "C15": ("PARTIAL. Theorems: + - == < on durations act on the exact nanosecond counts with an overflow error outside signed 64 bits; "
